@@ -357,7 +357,7 @@ open MythVerif.Wsq (Elem Pid Holder retOpt)
 /-! ## x86-TSO machine: bounded exhaustive search with the fence positions as a parameter -/
 
 inductive Cmd where
-  | push (e : Elem) | pop | take
+  | push (e : Elem) | pop | take | put (e : Elem) | pass (e : Elem) | peek
   deriving Repr
 
 structure Cfg where
@@ -370,6 +370,7 @@ def stoKey : Sto → List Int
   | .base v => [2, v]
   | .ptr i x => [3, i, (x.getD 0 : Nat), if x.isSome then 1 else 0]
   | .unlock => [4]
+  | .baseI v e => [5, v, e]
 
 def optKey (x : Option Elem) : List Int := [(x.getD 0 : Nat), if x.isSome then 1 else 0]
 
@@ -378,16 +379,21 @@ def opcKey : OPc → List Int
   | .pu2 e t => [5, e, t] | .pq => [6] | .po1 => [7] | .pof t => [8, t] | .po2 t => [9, t]
   | .po3 t x => [10, t, x] | .pol t => [11, t] | .po4 t => [12, t] | .po5 t x => [13, t, x]
   | .po5b t r => [14, t] ++ optKey r | .po6 r => 15 :: optKey r | .po7 => [16] | .po8 => [17] | .po9 => [18]
+  | .stuckL => [19] | .ptl e => [20, e] | .pt1 e => [21, e] | .pt6 e => [22, e] | .pt7 e b => [23, e, b]
+  | .pt8 e b => [24, e, b] | .pt9 => [25]
 
 def tpcKey : TPc → List Int
   | .idle => [0] | .tq0 => [1] | .tq1 t => [2, t] | .tkl => [3] | .tk1 => [4] | .tkf b => [5, b]
   | .tk2 b => [6, b] | .tk3 b x => [7, b, x] | .tk4 r => 8 :: optKey r | .tk5 b => [9, b] | .tk6 => [10]
+  | .tpl e => [11, e] | .tp1 e => [12, e] | .tp1b e => [13, e] | .tp2 e b => [14, e, b] | .tp3 e => [15, e]
+  | .tp4 ok => [16, if ok then 1 else 0]
+  | .kq0 => [17] | .kq1 t => [18, t] | .pk1 => [19] | .pk2 b => [20, b] | .pk3 b => [21, b]
 
 def lockKey : Holder → Int
   | .free => 0 | .owner => 1 | .thief p => 2 + p
 
 def cmdKey : Cmd → Int
-  | .push e => 100 + e | .pop => 1 | .take => 2
+  | .push e => 100 + 3 * e | .pop => 1 | .take => 2 | .put e => 101 + 3 * e | .pass e => 102 + 3 * e | .peek => 3
 
 /-- canonical key of the concrete part of a configuration (slots `0..size-1`, `k` participants) -/
 def Cfg.key (c : Cfg) : List Int :=
@@ -402,8 +408,8 @@ def Cfg.key (c : Cfg) : List Int :=
   (c.tscr.map (fun l => l.map cmdKey ++ [-8])).flatten
 
 def showLbl : Lbl → String
-  | .oPush e => s!"owner:call-push({e})" | .oPop => "owner:call-pop" | .o => "owner:step" | .flushO => "owner:FLUSH"
-  | .tTake p => s!"thief{p}:call-take" | .t p => s!"thief{p}:step" | .flushT p => s!"thief{p}:FLUSH"
+  | .oPush e => s!"owner:call-push({e})" | .oPop => "owner:call-pop" | .oPut e => s!"owner:call-put({e})" | .o => "owner:step" | .flushO => "owner:FLUSH"
+  | .tTake p => s!"thief{p}:call-take" | .tPass p e => s!"thief{p}:call-trypass({e})" | .tPeek p => s!"thief{p}:call-peek" | .t p => s!"thief{p}:step" | .flushT p => s!"thief{p}:FLUSH"
 
 /-- successors: (label, configuration) -/
 def Cfg.succ (c : Cfg) : List (Lbl × Cfg) :=
@@ -414,6 +420,7 @@ def Cfg.succ (c : Cfg) : List (Lbl × Cfg) :=
       (match c.oscr with
        | .push e :: rest => (match step s (.oPush e) with | some s' => [(.oPush e, { c with s := s', oscr := rest })] | none => [])
        | .pop :: rest => (match step s .oPop with | some s' => [(.oPop, { c with s := s', oscr := rest })] | none => [])
+       | .put e :: rest => (match step s (.oPut e) with | some s' => [(.oPut e, { c with s := s', oscr := rest })] | none => [])
        | _ => [])
     | _ => (match step s .o with | some s' => [(.o, { c with s := s' })] | none => [])
   let fo : List (Lbl × Cfg) := match step s .flushO with | some s' => [(.flushO, { c with s := s' })] | none => []
@@ -424,6 +431,10 @@ def Cfg.succ (c : Cfg) : List (Lbl × Cfg) :=
         (match c.tscr[p]? with
          | some (.take :: rest) =>
            (match step s (.tTake p) with | some s' => [(.tTake p, { c with s := s', tscr := c.tscr.set p rest })] | none => [])
+         | some (.peek :: rest) =>
+           (match step s (.tPeek p) with | some s' => [(.tPeek p, { c with s := s', tscr := c.tscr.set p rest })] | none => [])
+         | some (.pass e :: rest) =>
+           (match step s (.tPass p e) with | some s' => [(.tPass p e, { c with s := s', tscr := c.tscr.set p rest })] | none => [])
          | _ => [])
       | _ => (match step s (.t p) with | some s' => [(.t p, { c with s := s' })] | none => [])
     let fl : List (Lbl × Cfg) := match step s (.flushT p) with | some s' => [(.flushT p, { c with s := s' })] | none => []
@@ -434,7 +445,7 @@ def Cfg.succ (c : Cfg) : List (Lbl × Cfg) :=
     visited set.  Terminal = no successor except self-loops. -/
 def Cfg.done (c : Cfg) : Bool :=
   c.oscr.isEmpty && c.tscr.all (·.isEmpty) &&
-  (match c.s.opc with | .idle => true | .stuck => true | _ => false) &&
+  (match c.s.opc with | .idle => true | .stuck => true | .stuckL => true | _ => false) &&
   (List.range c.tscr.length).all (fun p => match c.s.tpc p with | .idle => true | _ => false) &&
   c.s.bufO.isEmpty && (List.range c.tscr.length).all (fun p => (c.s.bufT p).isEmpty)
 
@@ -476,7 +487,10 @@ def parseCmds (w : String) : List Cmd :=
   (w.splitOn ",").filterMap fun x =>
     if x == "pop" then some Cmd.pop
     else if x == "take" then some Cmd.take
+    else if x == "peek" then some Cmd.peek
     else if x.startsWith "push" then (x.drop 4).toNat?.map Cmd.push
+    else if x.startsWith "put" then (x.drop 3).toNat?.map Cmd.put
+    else if x.startsWith "pass" then (x.drop 4).toNat?.map Cmd.pass
     else none
 
 def parseCfg (w : String) : FenceCfg :=
@@ -485,7 +499,8 @@ def parseCfg (w : String) : FenceCfg :=
   ⟨b 0, b 1, b 2, b 3⟩
 
 /-- `drv_wsq tso <size> <fences> <limit> <ownerscript> <thiefscript>*`
-    e.g. `tso 4 1011 200000 push1,pop take` -/
+    e.g. `tso 4 1011 200000 push1,pop take`; owner commands `pushN`, `pop`, `putN`, participant
+    commands `take`, `peek`, `passN` (one `myth_queue_trypass`; a failed trylock returns without inserting) -/
 def runCli (args : List String) : IO UInt32 := do
   match args with
   | size :: fences :: limit :: oscr :: tscrs =>
